@@ -215,6 +215,18 @@ def run_impl(case):
             if st == "ok":
                 obs["oracle"].append(f"point outside the region ({tag}) accepted: {p} -> {i}")
     obs["p2i"] = res
+    # non-finite coordinates are outside every region
+    for bad in (float("inf"), float("-inf"), float("nan")):
+        for ax in range(ndim):
+            q = [float(a + 0.5 * e) for a, e in zip(m.region.pmin, m.region.edges)]
+            q[ax] = bad
+            try:
+                inside = bool(q in m.region)
+            except Exception:
+                inside = False
+            stq, iq = _err(lambda q=q: m.point2index(q))
+            if inside or stq == "ok":
+                obs["oracle"].append(f"point with a non-finite coordinate accepted: {q} in region={inside}, point2index -> {iq if stq == 'ok' else stq}")
     # ---- constructor by cell size
     byc = []
     for kind, fac in (("exact", 1.0), ("off1e-6", 1 + 1e-6), ("off-1e-6", 1 - 1e-6), ("off10pc", 1.1), ("too-large", None),
